@@ -2,6 +2,7 @@
 package c09
 
 import (
+	"regexp"
 	"strings"
 
 	"verifharness/internal/core"
@@ -10,6 +11,8 @@ import (
 )
 
 func init() { core.Register("C09", Run) }
+
+var dotsExpr = regexp.MustCompile(`\.\.\.\s*\}`)
 
 func firstDiffLine(a, b string) (string, string) {
 	la, lb := strings.Split(a, "\n"), strings.Split(b, "\n")
@@ -25,7 +28,7 @@ func firstDiffLine(a, b string) (string, string) {
 func textShape(p1, p2 string) string {
 	a, b := firstDiffLine(p1, p2)
 	switch {
-	case strings.Contains(a, "... }") || strings.Contains(b, "... }"):
+	case dotsExpr.MatchString(a) || dotsExpr.MatchString(b): // `{ x... }`, also with the padding already grown: `{ x...   }`
 		return "TrailingDotsExpr"
 	case strings.Contains(a, "{{") || strings.Contains(b, "{{"):
 		return "GoCodeText"
@@ -35,6 +38,20 @@ func textShape(p1, p2 string) string {
 		return "ExprText"
 	}
 	return "Text"
+}
+
+// reindentOnly: the two passes have the same lines up to leading white space (and differ).
+func reindentOnly(a, b string) bool {
+	la, lb := strings.Split(a, "\n"), strings.Split(b, "\n")
+	if a == b || len(la) != len(lb) {
+		return false
+	}
+	for i := range la {
+		if strings.TrimLeft(la[i], " \t") != strings.TrimLeft(lb[i], " \t") {
+			return false
+		}
+	}
+	return true
 }
 
 func Run(c *core.Ctx) {
@@ -107,6 +124,8 @@ func Run(c *core.Ctx) {
 				shape = reasons[0]
 			case layoutPredicted && m2 != cs.P2:
 				shape = "PaddingGrows:" + textShape(cs.P1, cs.P2)
+			case reindentOnly(cs.P1, cs.P2):
+				shape = "MultiLineTextReindent" // continuation lines of a text node gain indentation on every pass
 			default:
 				shape = textShape(cs.P1, cs.P2)
 			}
@@ -120,7 +139,7 @@ func Run(c *core.Ctx) {
 			}
 		}
 		// the layout model must predict the second pass (up to padding inside a line) whenever the structure is re-read unchanged
-		if cs.SameStructure && !layoutPredicted {
+		if cs.SameStructure && !layoutPredicted && !(!stable && reindentOnly(cs.P1, cs.P2)) {
 			tie2 = false
 			if c.NFails("formatter: model second pass (reparse) = real second pass") < 3 {
 				a, b := firstDiffLine(fmttie.Squash(m2), fmttie.Squash(cs.P2))
